@@ -5,7 +5,7 @@ CONSTANTS
   CallFs = {"rate", "scalar", "vector", "clamp_min", "round", "day_of_week", "label_join"}
   AggOps = {"sum", "topk", "count_values"}
   AggStyles = {"plain", "by_pre", "without_post"}
-  GrpLists = {"none", "empty", "a_tc", "kw", "u"}
+  GrpLists = {"none", "empty", "kw", "u"}
   BinOps = {}
   BinMods = {}
   Offsets = {}
